@@ -94,7 +94,9 @@ class X(operator.Operator):
         ncomp = self.shape[ax]
 
         # check khi matrix for total magnetization
-        if not xp.allclose(dotp(self.khi, sm.density[..., NAX], axes=[-1, ax]), 0):
+        khi = xp.expand_dims(self.khi, tuple(range(self.khi.ndim - 1, sm.ndim)))
+        density = insert_axis(xp.moveaxis(sm.density, ax, -1), ax)
+        if not xp.allclose(dotp(khi, density), 0):
             raise RuntimeError(
                 "Exchange matrix `khi` does not conserve total magnetization"
             )
@@ -178,12 +180,13 @@ def exchange_operator(tau, khi, *, axis=0, T1=None, T2=None, g=None):
     tau, T1, T2, g = expand_to([tau, T1, T2, g], ndim)
     T1, T2, g = broadcast_to([T1, T2, g], shape)
 
-    # expand khi to match ndim
-    dims = tuple(range(ndim - len(minshape)))
+    # expand khi to match ndim (missing axes are appended to the batch axes)
+    dims = tuple(range(len(minshape), ndim))
     khi = xp.expand_dims(khi, dims)
 
     # move exchange axis to the end
     tau, T1, T2, g = moveaxis_to([tau, T1, T2, g], axis, -1)
+    khi = xp.moveaxis(khi, axis, -2)
 
     # build evolution matrices
     xT = -khi + (-1 / T2 + 2j * np.pi * g)[..., NAX] * eye
